@@ -9,6 +9,7 @@ import (
 
 	"github.com/pion/transport/v3/packetio"
 	"github.com/pion/transport/v3/zzvsched"
+	"verifharness/explore"
 )
 
 // C06 / C07 — packet buffer: FIFO integrity (C06) and limits / occupancy (C07).
@@ -512,4 +513,123 @@ func init() {
 	register(&Check{ID: "C07", Seq: func(t string, k, n int, r *SeqReport) { runBuf("C07", t, k, n, r) },
 		Rule:        "same histories as C06 plus, for each size limit in {1,2,3,2047..2050,4095..4098,131071..131073,4MiB-1..4MiB+1,4MiB+4096,unset}, occupancy brought to limit-r (r in 0..12, two head offsets) and probed with every packet length around the threshold, and BFS over count limits changed at every point; Count() and Size() are compared with the model after every operation and every accept/refuse decision with the exact rule",
 		Assumptions: assume})
+}
+
+// ---------------------------------------------------------------- concurrent part of C06 (SCHED)
+
+func c06concurrent(sizes [][]int, reader bool, bound int) *explore.Scenario {
+	name := fmt.Sprintf("buffer writers=%v", sizes)
+	if reader {
+		name += " +reader"
+	}
+	sc := &explore.Scenario{Name: name, Bound: bound}
+	sc.Cfg.Horizon = time.Second
+	total := 0
+	for _, w := range sizes {
+		total += len(w)
+	}
+	mk := func(w, k, n int) []byte {
+		p := make([]byte, n)
+		for i := range p {
+			p[i] = byte(w*101 + k*37 + i*3 + 1)
+		}
+		if n > 1 {
+			p[0], p[1] = byte(w), byte(k)
+		}
+		return p
+	}
+	sc.Make = func() (func(), func(*zzvsched.Exec) (string, *explore.Violation)) {
+		var got [][]byte
+		var errs []string
+		body := func() {
+			b := packetio.NewBuffer()
+			for w, ss := range sizes {
+				w, ss := w, ss
+				zzvsched.GoNamed(fmt.Sprintf("writer%d", w), func() {
+					for k, n := range ss {
+						p := mk(w, k, n)
+						if _, err := b.Write(p); err != nil {
+							errs = append(errs, err.Error())
+						}
+						for i := range p {
+							p[i] = 0xEE
+						}
+					}
+				})
+			}
+			read := func() {
+				for i := 0; i < total; i++ {
+					buf := make([]byte, 70000)
+					n, err := b.Read(buf)
+					if err != nil {
+						errs = append(errs, "read: "+err.Error())
+						return
+					}
+					got = append(got, buf[:n])
+				}
+			}
+			if reader {
+				zzvsched.GoNamed("reader", read)
+			} else {
+				zzvsched.WaitIdle()
+				read()
+			}
+		}
+		check := func(ex *zzvsched.Exec) (string, *explore.Violation) {
+			var order []string
+			for _, g := range got {
+				if len(g) > 1 {
+					order = append(order, fmt.Sprintf("w%dp%d", g[0], g[1]))
+				} else {
+					order = append(order, "?")
+				}
+			}
+			out := strings.Join(order, ",")
+			if len(ex.Panics) > 0 {
+				return out, &explore.Violation{Sig: "C06 panic", Msg: name + ": panic: " + ex.Panics[0].Value + "\n" + ex.Panics[0].Stack}
+			}
+			if len(errs) > 0 {
+				return out, &explore.Violation{Sig: "C06 concurrent-error", Msg: name + ": " + strings.Join(errs, "; ")}
+			}
+			if ex.HorizonHit {
+				return out + " HORIZON", nil
+			}
+			if len(got) != total {
+				return out, &explore.Violation{Sig: "C06 concurrent-lost", Msg: fmt.Sprintf("%s: %d packets were written but only %d could be read (%v); parked: %v", name, total, len(got), order, ex.Parked)}
+			}
+			next := make([]int, len(sizes))
+			for _, g := range got {
+				if len(g) < 2 || int(g[0]) >= len(sizes) {
+					return out, &explore.Violation{Sig: "C06 concurrent-corrupt", Msg: fmt.Sprintf("%s: a read returned %d bytes that match no written packet", name, len(g))}
+				}
+				w, k := int(g[0]), int(g[1])
+				if k != next[w] || k >= len(sizes[w]) {
+					return out, &explore.Violation{Sig: "C06 concurrent-order", Msg: fmt.Sprintf("%s: packets of writer %d were read out of order or twice: %v", name, w, order)}
+				}
+				next[w]++
+				if want := mk(w, k, sizes[w][k]); !bytes.Equal(g, want) {
+					return out, &explore.Violation{Sig: "C06 concurrent-corrupt", Msg: fmt.Sprintf("%s: packet %d of writer %d (%d bytes) was read as %d bytes, first difference at %d", name, k, w, len(want), len(g), firstDiff(g, want))}
+				}
+			}
+			return out, nil
+		}
+		return body, check
+	}
+	return sc
+}
+
+func init() {
+	c := registry["C06"]
+	c.Scenarios = func(tier string) []*explore.Scenario {
+		b := 2
+		if tier == "thorough" {
+			b = 3
+		}
+		return []*explore.Scenario{
+			c06concurrent([][]int{{1500, 900}, {1200, 700}}, true, b),
+			c06concurrent([][]int{{1500, 900}, {1200, 700}}, false, b),
+			c06concurrent([][]int{{2, 3000}, {2040, 5}}, true, b),
+		}
+	}
+	c.Rule += "; concurrently: 2 writers x 2 packets whose sizes force the ring to grow, with and without a concurrent reader, every interleaving within the preemption bound: the read sequence must be a merge of the writers' sequences, byte-identical"
 }
